@@ -8,7 +8,7 @@ V(clause, exact) == <<IF clause = "ok" THEN "ok" ELSE "fail", IF clause = "ok" T
 Judge(e) ==
   IF e.op = "query" THEN
      LET m == ImplQuery(e.extra \o e.report \o e.trailing)
-     IN V(QueryVerdict(e), e.k = "ok" => (e.ret = <<m[1], m[2]>> /\ FlattenSeq(e.calls) = m[3] /\ e.consumed = m[4]))
+     IN V(QueryVerdict(e), e.k = "ok" => (e.ret = <<m[1], m[2]>> /\ FlattenSeq(e.calls) = ArrivedAs(m[3], e.enc) /\ e.consumed = m[4]))
   ELSE IF e.op = "vdiff" THEN
      LET m == ImplDiff(e.top0, e.last0, e.rows, e.nested)
      IN V(DiffVerdict(e), e.k = "ok" => (e.top1 = m[1] /\ e.ret = m[2] /\ e.last1 = m[3] /\ e.queries = m[4]))
